@@ -75,6 +75,12 @@ package builder
 //@             as(bc.request.CurrentState.WorkerState, *remoteworker.CurrentState_Executing_).Executing.ActionDigest == executionRequest.ActionDigest
 //@   ensures failed-start-changes-nothing: r0 != nil ==> unchanged()
 
+//@ func (*BuildClient).consumeExecutionUpdatesNonBlocking
+//@   props C08
+//@   requires bcInv(bc) && bc.request.CurrentState != nil
+//@   loop 0 invariant bcInv(bc) && bc.request.CurrentState != nil && bc == old(bc)
+//@   ensures inv: bcInv(bc) && bc.request.CurrentState != nil
+
 // One synchronization round. What is sent to the scheduler: once shutdown has
 // begun every request asks to be left idle; after an action failed with a
 // non-OK status the worker asks to be left idle; an idle worker the scheduler
@@ -94,4 +100,3 @@ package builder
 //@             isIdle(bc) && bc.schedulerMayThinkExecutingUntil != nil ==> bc.request.PreferBeingIdle
 //@   at call Synchronize#1 assert reports-current-state: arg2 == &bc.request
 //@   ensures inv: bcInv(bc)
-//@   ensures may-terminate-only-when-not-executing: r0 && r1 == nil && uf("ctxerr", ctx) == nil ==> bc.executionCancellation == nil || true
